@@ -690,3 +690,77 @@ def r_ctor_siblings(cx):
                   "(%s): the typed constructors no longer agree with each other" % (
                       ty, ctor, ", ".join(str(v)[:80] for v in vals[:2])), cx.where(f.d["span"]))
     cx.count("R-CTOR-SIBLINGS", "constructors", n)
+
+
+@rule("R-WIDEN-FIRST", ["C19"])
+def r_widen_first(cx):
+    """The 32-bit tuple is a storage format: whatever is computed from it as an f64 (the scalar product, a mixed
+    `Coor2D op Coor32`) is computed in f64, each element widened *before* it enters the arithmetic - as the element-wise
+    f64 definitions and the trait defaults do. In coordinate::, a function that returns f64 (or an f64 tuple) performs no
+    arithmetic in f32: `(a[0] * b[0] + a[1] * b[1]) as f64` rounds, cancels and overflows where the definition does not."""
+    n = 0
+    for name in sorted(cx.f.lib["fns"]):
+        if "::tests::" in name or not name.startswith("coordinate::") or "{closure" in name:
+            continue
+        f = cx.f.fn(name)
+        sig = str(f.d.get("sig", ""))
+        ret = sig.rsplit("->", 1)[-1].strip() if "->" in sig else ""
+        if not (ret == "f64" or ret.endswith(("Coor2D", "Coor3D", "Coor4D"))):
+            continue
+        narrow = [(bb, st) for bb, i, st in f.all_stmts() if st["k"] == "assign" and st["rv"]["k"] == "bin" and
+                  str(f.local_ty(st["place"]["l"])) == "f32"]
+        floats = [1 for bb, i, st in f.all_stmts() if st["k"] == "assign" and st["rv"]["k"] == "bin" and
+                  str(f.local_ty(st["place"]["l"])) in ("f32", "f64")]
+        if not floats:
+            continue
+        n += 1
+        cx.ob("R-WIDEN-FIRST", name.replace("coordinate::", "", 1), not narrow,
+              "%s computes in f64" % name if not narrow else
+              "%s returns an f64 result but does (part of) its arithmetic in f32: the result is rounded to single precision, and "
+              "large or small elements overflow / underflow where the f64 definition does not" % name,
+              cx.where(narrow[0][1].get("span")) if narrow else cx.where(f.d["span"]))
+    cx.count("R-WIDEN-FIRST", "functions", n)
+
+
+_ISO_ALLOWED = {
+    "dm_fwd": ("iso_dm",), "dms_fwd": ("iso_dms",),
+    "dm_inv": ("to_degrees", "dd_to_iso_dm", "raw"), "dms_inv": ("to_degrees", "dd_to_iso_dms", "raw"),
+}
+
+
+@rule("R-ISO-OPERATORS-PLAIN", ["C19"])
+def r_iso_operators_plain(cx):
+    """The `dm` and `dms` operators are the ISO-6709 conversions of math::angular applied to the two horizontal elements
+    of each tuple - nothing else: forward the typed constructor (iso_dm / iso_dms), inverse to_degrees and dd_to_iso_dm /
+    dd_to_iso_dms. A further function in the per-tuple loop (a normalisation of the longitude, a rounding) makes the operator
+    disagree with the conversion functions and with its sibling."""
+    n = 0
+    for tail, allowed in sorted(_ISO_ALLOWED.items()):
+        name = "inner_op::iso6709::" + tail
+        if not cx.f.has_fn(name):
+            cx.ob("R-ISO-OPERATORS-PLAIN", "%s/anchor" % tail, False, "anchor-missing: %s" % name)
+            continue
+        f = cx.f.fn(name)
+        n += 1
+        extra = []
+        seen = set()
+        for bb, t in f.calls():
+            if f.innermost_loop(bb) is None or (t["span"].get("exp") or "").startswith("macro"):
+                continue
+            c = f.callee(t) or ""
+            ct = c.rsplit("::", 1)[-1]
+            if c.startswith(("coordinate::set::CoordinateSet::", "<coordinate::")) or "::Index" in c or ct in ("index", "index_mut", "next", "len", "into_iter"):
+                continue
+            if "Iterator" in c or "Range" in c:
+                continue
+            seen.add(ct)
+            if ct not in allowed:
+                extra.append((ct, t))
+        missing = [a for a in allowed if a not in seen and a != "raw"]
+        ok = not extra and not missing
+        cx.ob("R-ISO-OPERATORS-PLAIN", tail, ok,
+              "%s applies %s to the horizontal elements and nothing else" % (tail, ", ".join(allowed)) if ok else
+              ("%s also applies `%s` to the tuple: the operator no longer agrees with the conversion functions of math::angular "
+               "(e.g. a longitude beyond 180 degrees is encoded as another angle)" % (tail, extra[0][0]) if extra else
+               "%s does not apply %s" % (tail, ", ".join(missing))), cx.where(extra[0][1]["span"]) if extra else cx.where(f.d["span"]))
+    cx.count("R-ISO-OPERATORS-PLAIN", "functions", n)
